@@ -17,6 +17,9 @@ Decided (effects + call graph; no arithmetic is evaluated):
  DETERMINISM    no RNG/clock call is reachable from streaming or batch code except OLEQ's documented random start.
 Not decided: bit-identity of floating-point results (it follows from the above because both routes then execute
 the same statements on the same state).
+Added after the seeding rounds (DESIGN.md 6.6-6.8):
+ PROTOCOL.rows / PROTOCOL.state  every output row of a batch loop comes from the streaming (or per-sample) method and the batch routine assigns no attribute the
+            streaming method reads; RECOMPUTED  AQUA.alpha is a function of the current sample only.
 """
 import ast
 LINT_EXTRA_FILES = ("ahrs/common/orientation.py",)      # acc2q / am2q / ecompass helpers the filters start from
